@@ -34,7 +34,9 @@ BUDGET = {"quick": (30000, 200), "thorough": (200000, 2400)}
 
 _plain_keys = st.sampled_from(["a", "key", "items", "v", "data", "references", "x y", "-1", "1.5", "1a", "t", "l"])
 _odd_keys = st.one_of(
-    st.sampled_from(["", "0", "1", "007", "12", "²", "٣", "１２", "0x1", " 1", "1 "]),
+    # digit strings, other-script digits, superscripts, and strings that are numeric without being digits (isnumeric / isdecimal
+    # / isdigit disagree on these), all legal dict keys and - as variable names like `一` - legal identifiers
+    st.sampled_from(["", "0", "1", "007", "12", "²", "٣", "１２", "0x1", " 1", "1 ", "½", "¾", "Ⅷ", "〇", "一", "二十", "⑦", "௰"]),
     st.integers(-3, 12),
     st.none(),
     st.booleans(),
